@@ -125,8 +125,17 @@ def check(rep, an, tier):
                 rep.advisory(f"{entry}: caller-supplied dict keyword argument is updated in place at {ev.loc} `{ev.text()[:50]}`")
         R.rule_no_global_state(rep, res, entry)
         global_rng(rep, res, entry)
-        for vlabel, vkw in VARIANTS.get(name, lambda: [])():
-            vres = an.run(f"{EST}.{name}", kws=vkw, self_fields=dict(fields), config=vlabel)
+        if "seed" in kw:
+            unseeded(rep, res, entry)         # a seed is given (seed=None documents an unseeded draw)
+        variants = list(VARIANTS.get(name, lambda: [])())
+        if name in ("in_hull", "sample_in_hull", "range_of_solutions", "compute_hull"):
+            variants.append(("unbounded sources (ub=inf)", ARGS.get(name, lambda: {})(), "inf"))
+        for var in variants:
+            vlabel, vkw = var[0], var[1]
+            vfields = dict(fields) if len(var) < 3 else estimator_fields(K="vec", baseline="vec", uncertainty="given", Epsilon="array", ub=var[2])
+            vres = an.run(f"{EST}.{name}", kws=vkw, self_fields=vfields, config=vlabel)
+            if "seed" in vkw:
+                unseeded(rep, vres, entry)
             for ev in vres.events("self_store")[:3]:
                 rep.violated("R-EFFECT", "query has an empty write set", where=ev.loc, construct=ev.text(), entry=entry, config=vlabel,
                              msg=f"`{name}` [{vlabel}] assigns self.{ev.d['attr']}")
@@ -262,3 +271,15 @@ def global_rng(rep, res, entry):
         if d.startswith("random."):
             rep.violated("R-SEED", "no global RNG", where=ev.loc, construct=ev.text(), entry=entry, config=res.config,
                          msg=f"`{d}` uses the global `random` module state")
+
+
+def unseeded(rep, res, entry):
+    """a query whose inputs include a seed is a function of its arguments and the registered state: no unseeded generator
+    (default_rng() without the seed, scipy falling back to the global RandomState) may reach the answer"""
+    v = res.value.flat()
+    ent = sorted(o for o in v.deps_all() if o.startswith("entropy@"))
+    if ent:
+        rep.violated("R-SEED", "no unseeded randomness reaches a query's answer", where=res.fn.loc(), construct=f"result of {res.fn.name}", entry=entry,
+                     config=res.config,
+                     msg=f"the answer depends on an unseeded generator created at {', '.join(e.split('@')[1] for e in ent)}: repeating the query (same "
+                         f"arguments, same registered state) gives a different answer")
